@@ -395,7 +395,7 @@ def random_history(rng, nops, opts=None, dump_every=1, hooks=False, crossing=Fal
                 k = KIND.get(n.kids[0].ty, "i")
             else:
                 k = rng.choice(KINDS)
-            idx = rng.choice([-1, -1, -1, 0, L - 1, L, L + 3, -2]) if L else rng.choice([-1, -1, 0, 1])
+            idx = rng.choice([-1, -1, -1, 0, L - 1, L, L + 3, -2, -7, -2**31]) if L else rng.choice([-1, -1, 0, 1, -3])
             v = rand_value(rng, k)
             tgt = n.kids[idx].ty if 0 <= idx < L else None
             if k == "f" and auto and tgt in (T_INT, T_INT64):
@@ -616,6 +616,21 @@ def corrupt_paths(rng, base, rel):
         comp = k.name if (k.name is not None) else b"[%d]" % i
         pre = pre + sep + comp
         cur = k
+    # an empty component: the valid spelling with one separator doubled (a member with an empty name cannot exist)
+    comps = []
+    c2 = base
+    for i in rel:
+        k = c2.kids[i]
+        comps.append(k.name if (k.name is not None and c2.ty == T_GROUP) else b"[%d]" % i)
+        c2 = k
+    for cut in range(len(comps) + 1):
+        if cut == 0:
+            dbl = rng.choice(SEPS) + rng.choice(SEPS) + rng.choice(SEPS).join(comps)
+        elif cut == len(comps):
+            continue
+        else:
+            dbl = rng.choice(SEPS).join(comps[:cut]) + rng.choice(SEPS) + rng.choice(SEPS) + rng.choice(SEPS).join(comps[cut:])
+        res.insert(rng.randrange(len(res) + 1), dbl)
     if cur.ty in SCALARS:
         res.append(pre + b".x")
         res.append(pre + b".[0]")
